@@ -73,9 +73,20 @@ package server
 //@ func server.(*unaryServerTransportStream).setHeaderLocked
 //@   inline
 //@   holds server.unaryServerTransportStream.mu
+//@   atcall[C04.unary_headers_accumulate_in_a_copy] google.golang.org/grpc/metadata.Join : len(arg0) == 2 && arg0[1] == md
 
 // constructor: preconditions proved at runStream's call; objinv(result.0) is proved at its return
 //@ func server.NewServerStream
 //@   inline
 //@   requires ctx != nil && rw != nil
 //@   requires forall j Int :: 0 <= j && j < len(statsHandlers) ==> statsHandlers[j] != nil
+
+// header/trailer collector of a unary call: what it keeps is always a merged copy (metadata.Join),
+// never the handler's own map, which the handler is free to reuse or change afterwards
+//@ func server.(*unaryServerTransportStream).SetHeader
+//@   ensures[C04.unary_headers_accumulate_in_a_copy] result == nil ==> ncalls("google.golang.org/grpc/metadata.Join") == old(ncalls("google.golang.org/grpc/metadata.Join")) + 1
+//@ func server.(*unaryServerTransportStream).SendHeader
+//@   ensures[C04.unary_headers_accumulate_in_a_copy] result == nil ==> ncalls("google.golang.org/grpc/metadata.Join") == old(ncalls("google.golang.org/grpc/metadata.Join")) + 1
+//@ func server.(*unaryServerTransportStream).SetTrailer
+//@   atcall[C04.unary_trailers_accumulate_in_a_copy] google.golang.org/grpc/metadata.Join : len(arg0) == 2 && arg0[1] == md
+//@   ensures[C04.unary_trailers_accumulate_in_a_copy] result == nil ==> ncalls("google.golang.org/grpc/metadata.Join") == old(ncalls("google.golang.org/grpc/metadata.Join")) + 1
